@@ -4,22 +4,30 @@
 # 2. apply seed_out/patch.diff to /repo, run the listed checks (default: <ID>) at the quick tier, undo
 # 3. store patch, demo and meta.json under /verif/seeded/<ID>/
 ID="$1"; shift; CHECKS="${*:-$ID}"
-WT=/tmp/seed/$ID; OUT=/verif/seeded/$ID
-[ -f "$WT/seed_out/patch.diff" ] || { echo "no patch in $WT/seed_out"; exit 2; }
+ROOT="${SEEDROOT:-/tmp/seed}"; SUFFIX="${SEEDSUFFIX:-}"
+WT=$ROOT/$ID; OUT=/verif/seeded/$ID$SUFFIX
 mkdir -p "$OUT"
+[ "${SEED_PHASE:-all}" = B ] || [ -f "$WT/seed_out/patch.diff" ] || { echo "no patch in $WT/seed_out"; exit 2; }
+if [ "${SEED_PHASE:-all}" = B ]; then
+  SUITE=$(cat "$OUT/.suite"); DEMO_WITH=$(cat "$OUT/.demo_with"); DEMO_WITHOUT=$(cat "$OUT/.demo_without")
+else
 cd "$WT" || exit 2
 # the patch file is the source of truth: start from clean sources and apply it
 git checkout -- src && git apply seed_out/patch.diff || { echo "patch does not apply to a clean worktree"; exit 2; }
 cp seed_out/seed_demo.rs tests/seed_demo.rs 2>/dev/null
-mv tests/seed_demo.rs /tmp/seed/$ID.demo.rs
+mv tests/seed_demo.rs $ROOT/$ID.demo.rs
 SUITE=$(cargo test --offline --workspace --no-fail-fast 2>&1 | grep -E "^test result" | awk '{p+=$4; f+=$6} END {print p" passed "f" failed"}')
-mv /tmp/seed/$ID.demo.rs tests/seed_demo.rs
+mv $ROOT/$ID.demo.rs tests/seed_demo.rs
 DEMO_WITH=$(cargo test --offline --test seed_demo 2>&1 | grep -E "^test result" | head -1)
 git apply -R seed_out/patch.diff
 DEMO_WITHOUT=$(cargo test --offline --test seed_demo 2>&1 | grep -E "^test result" | head -1)
 git apply seed_out/patch.diff
 echo "suite with change: $SUITE"; echo "demo with change: $DEMO_WITH"; echo "demo without: $DEMO_WITHOUT"
 cp seed_out/patch.diff "$OUT/patch.diff"; cp tests/seed_demo.rs "$OUT/seed_demo.rs"; cp seed_out/notes.md "$OUT/notes.md" 2>/dev/null
+fi
+if [ "${SEED_PHASE:-all}" = A ]; then
+  echo "$SUITE" > "$OUT/.suite"; echo "$DEMO_WITH" > "$OUT/.demo_with"; echo "$DEMO_WITHOUT" > "$OUT/.demo_without"; exit 0
+fi
 # run our checks against it
 cd /verif
 [ -z "$(git -C /repo status --porcelain --untracked-files=no)" ] || { echo "/repo dirty"; exit 2; }
@@ -36,9 +44,9 @@ done
 git -C /repo checkout -- .
 rm -rf /verif/evidence && mv /tmp/evidence_backup /verif/evidence
 echo -e "$RES"
-python3 - "$ID" "$SUITE" "$DEMO_WITH" "$DEMO_WITHOUT" "$RES" "$CHECKS" <<'PY'
+python3 - "$ID" "$SUITE" "$DEMO_WITH" "$DEMO_WITHOUT" "$RES" "$CHECKS" "$OUT" <<'PY'
 import sys, json
-id_, suite, dw, dwo, res, checks = sys.argv[1:7]
+id_, suite, dw, dwo, res, checks, out = sys.argv[1:8]
 meta = {"property": id_, "origin": "independent sub-agent given only the property text and a scratch worktree",
         "needs_to_manifest": "see notes.md",
         "confirmed": {"existing_suite_with_change": suite, "demo_with_change": dw.strip(), "demo_without_change": dwo.strip()},
@@ -46,5 +54,5 @@ meta = {"property": id_, "origin": "independent sub-agent given only the propert
         "commands": ["cd /tmp/seed/%s && cargo test --offline --workspace --no-fail-fast (demo moved aside)" % id_,
                      "cargo test --offline --test seed_demo (with / without the src change)",
                      "git -C /repo apply seeded/%s/patch.diff; ./check <id> --tier quick; git -C /repo checkout -- ." % id_]}
-json.dump(meta, open("/verif/seeded/%s/meta.json" % id_, "w"), indent=1)
+json.dump(meta, open(out + "/meta.json", "w"), indent=1)
 PY
